@@ -13,6 +13,7 @@ import (
 	"encoding/json"
 	"errors"
 	"fmt"
+	"io"
 	"math/rand"
 	"os"
 	"reflect"
@@ -48,7 +49,7 @@ type Input struct {
 	PluginErr string `json:"pluginErr"` // noErr | metadata | describeKey | generate
 	DkKeyIdOk bool   `json:"dkKeyIdOk"`
 	DkKeySpec string `json:"dkKeySpec"`
-	EchoOk    bool   `json:"echoOk"`
+	Echo      string `json:"echo"` // requested | otherFormat | empty | junk: what the response's envelope type names
 	EnvFmt    string `json:"envFmt"`
 	Garbage   bool   `json:"garbage"`
 	CtypeOk   bool   `json:"ctypeOk"`
@@ -60,6 +61,9 @@ type Input struct {
 	GsAlg     string `json:"gsAlg"`
 	SigMode   string `json:"sigMode"` // good | flipped | otherKey | wrongHash | emptySig
 	Chain     string `json:"chain"`   // ok | selfSigned | empty | garbage | otherKey | otherSpec
+	Gen       string `json:"gen"`     // fixed | stream | failing: the descriptor generator handed to SignBlob
+	Blob      string `json:"blob"`    // the blob a stream generator digests
+	Honest    bool   `json:"honest"`  // the plugin signs the request's payload bytes verbatim
 	DupKeys   bool   `json:"dupKeys"`
 	// the requested descriptor carries an empty, non-nil annotation map (only when it has no annotations)
 	EmptyAnnMap bool `json:"emptyAnnMap"`
@@ -189,6 +193,9 @@ func (p *plug) GenerateEnvelope(ctx context.Context, req *pluginfw.GenerateEnvel
 		doc = p.in.Payload.RenderSpaced()
 	}
 	p.payload = append(append([]byte(p.in.Lead), doc...), p.in.Trail...)
+	if p.in.Honest {
+		p.payload = append([]byte(nil), req.Payload...) // an honest plugin signs what it was asked to sign
+	}
 	cty := req.PayloadType
 	if !p.in.CtypeOk {
 		cty = pick(p.r, "application/vnd.cncf.notary.payload.v2+json", "application/json", "application/vnd.cncf.notary.payload.v1+JSON", "text/plain",
@@ -234,12 +241,19 @@ func (p *plug) GenerateEnvelope(ctx context.Context, req *pluginfw.GenerateEnvel
 	}
 	p.envelope = env
 	typ := req.SignatureEnvelopeType
-	if !p.in.EchoOk {
+	if p.in.Echo != "requested" {
 		other := common.MediaCOSE
 		if typ == common.MediaCOSE {
 			other = common.MediaJWS
 		}
-		typ = pick(p.r, other, "", typ+" ", "application/JOSE+json", "application/octet-stream")
+		switch p.in.Echo {
+		case "otherFormat":
+			typ = other
+		case "empty":
+			typ = ""
+		default:
+			typ = pick(p.r, typ+" ", "application/JOSE+json", "application/octet-stream", " "+typ, typ+";v=1", "application/Cose")
+		}
 	}
 	return &pluginfw.GenerateEnvelopeResponse{SignatureEnvelope: env, SignatureEnvelopeType: typ,
 		Annotations: map[string]string{"scripted": "yes"}}, nil
@@ -268,7 +282,28 @@ func toOCI(d Desc, emptyMap bool) ocispec.Descriptor {
 	return o
 }
 
+// normalise makes the redundant parts of a scenario consistent: with a stream generator the requested
+// descriptor IS the blob's descriptor under the digest algorithm of the DESCRIBED key spec (that is what
+// a correct signer asks the generator for); an honest plugin signs the canonical payload of the request.
+func normalise(in *Input) {
+	if in.Api == "signBlob" && in.Gen == "stream" {
+		alg := blobAlg[in.Key]
+		for k, name := range specOf {
+			if name == in.DkKeySpec {
+				alg = blobAlg[k]
+			}
+		}
+		in.Req.Digest = string(alg.FromString(in.Blob))
+		in.Req.Size = int64(len(in.Blob))
+	}
+	if in.Honest {
+		in.Payload = goodPayload(in.Req)
+		in.Lead, in.Trail, in.Spaced = "", "", false
+	}
+}
+
 func runCase(c *common.Ctx, w *world, in *Input) {
+	normalise(in)
 	in.DupKeys = hasDup(in.Payload)
 	p := &plug{in: in, w: w, r: rand.New(rand.NewSource(c.Rand.Int63()))}
 	desc := toOCI(in.Req, in.EmptyAnnMap)
@@ -290,7 +325,7 @@ func runCase(c *common.Ctx, w *world, in *Input) {
 				fmt.Fprintln(os.Stderr, "c18 harness: NewPluginSigner:", e)
 				os.Exit(3)
 			}
-			sig, info, err = s.SignBlob(ctx, func(alg digest.Algorithm) (ocispec.Descriptor, error) { return desc, nil }, opts)
+			sig, info, err = s.SignBlob(ctx, blobGenerator(in, desc), opts)
 		} else {
 			var s notation.Signer
 			var e error
@@ -320,6 +355,66 @@ func runCase(c *common.Ctx, w *world, in *Input) {
 	c.Emit(in, obs)
 }
 
+// blobGenerator is the notation.BlobDescriptorGenerator of the scenario. "stream" behaves like the one
+// notation.SignBlob hands out: it digests a reader with the algorithm it is asked for, and the reader
+// can be read once.
+func blobGenerator(in *Input, desc ocispec.Descriptor) notation.BlobDescriptorGenerator {
+	switch in.Gen {
+	case "failing":
+		return func(digest.Algorithm) (ocispec.Descriptor, error) {
+			return ocispec.Descriptor{}, errors.New("scripted: the blob cannot be read")
+		}
+	case "stream":
+		reader := strings.NewReader(in.Blob)
+		return func(alg digest.Algorithm) (ocispec.Descriptor, error) {
+			digester := alg.Digester()
+			n, err := io.Copy(digester.Hash(), reader)
+			if err != nil {
+				return ocispec.Descriptor{}, err
+			}
+			return ocispec.Descriptor{MediaType: desc.MediaType, Digest: digester.Digest(), Size: n, Annotations: desc.Annotations}, nil
+		}
+	}
+	return func(digest.Algorithm) (ocispec.Descriptor, error) { return desc, nil }
+}
+
+var blobAlg = map[string]digest.Algorithm{"rsa2048": digest.SHA256, "ec256": digest.SHA256, "rsa3072": digest.SHA384, "ec384": digest.SHA384,
+	"rsa4096": digest.SHA512, "ec521": digest.SHA512}
+
+// useStream turns a SignBlob scenario into one with a stream-backed generator: the requested descriptor
+// is the blob's descriptor under the digest algorithm that goes with the key; the payload is rebuilt.
+func useStream(r *rand.Rand, in *Input) {
+	if in.Api != "signBlob" {
+		return
+	}
+	in.Gen = "stream"
+	in.Blob = pick(r, "", "x", "hello blob", strings.Repeat("0123456789", 1+r.Intn(40)))
+	alg := blobAlg[in.Key]
+	in.Req.Digest = string(alg.FromString(in.Blob))
+	in.Req.Size = int64(len(in.Blob))
+	in.Payload = goodPayload(in.Req)
+}
+
+// signedDescriptorIs: the signed payload names exactly the descriptor (annotations may be extended).
+func signedDescriptorIs(payload []byte, desc ocispec.Descriptor) bool {
+	var p struct {
+		TargetArtifact ocispec.Descriptor `json:"targetArtifact"`
+	}
+	if json.Unmarshal(payload, &p) != nil {
+		return false
+	}
+	t := p.TargetArtifact
+	if t.MediaType != desc.MediaType || t.Digest != desc.Digest || t.Size != desc.Size {
+		return false
+	}
+	for k, v := range desc.Annotations {
+		if got, ok := t.Annotations[k]; !ok || got != v {
+			return false
+		}
+	}
+	return true
+}
+
 // inspect re-parses the returned signature independently.
 func inspect(in *Input, p *plug, desc ocispec.Descriptor, sig []byte, info *signature.SignerInfo) (payloadOk, leafOk bool) {
 	env, err := signature.ParseEnvelope(mediaOf(in.Format), sig)
@@ -339,7 +434,8 @@ func inspect(in *Input, p *plug, desc ocispec.Descriptor, sig []byte, info *sign
 			payloadOk = reflect.DeepEqual(a, b) && p.genSigReqs == 1 && p.genEnvReqs == 0
 		}
 	} else {
-		payloadOk = bytes.Equal(sig, p.envelope) && bytes.Equal(content.Payload.Content, p.payload) && p.genEnvReqs == 1 && p.genSigReqs == 0
+		payloadOk = bytes.Equal(sig, p.envelope) && bytes.Equal(content.Payload.Content, p.payload) && p.genEnvReqs == 1 && p.genSigReqs == 0 &&
+			signedDescriptorIs(content.Payload.Content, desc)
 	}
 	leafOk = info != nil && len(info.CertificateChain) > 0 && p.leaf != nil && bytes.Equal(info.CertificateChain[0].Raw, p.leaf) &&
 		len(content.SignerInfo.CertificateChain) > 0 && bytes.Equal(content.SignerInfo.CertificateChain[0].Raw, p.leaf)
@@ -386,8 +482,8 @@ func genDesc(r *rand.Rand) Desc {
 func base(r *rand.Rand, api, cap_, format, key string) *Input {
 	req := genDesc(r)
 	return &Input{Api: api, Cap: cap_, Format: format, Key: key, Req: req, PluginErr: "noErr",
-		DkKeyIdOk: true, DkKeySpec: specOf[key], EchoOk: true, EnvFmt: format, Garbage: false, CtypeOk: true,
-		Payload: goodPayload(req), GsKeyIdOk: true, GsAlg: sigAlgWire[key], SigMode: "good", Chain: "ok"}
+		DkKeyIdOk: true, DkKeySpec: specOf[key], Echo: "requested", EnvFmt: format, Garbage: false, CtypeOk: true,
+		Payload: goodPayload(req), GsKeyIdOk: true, GsAlg: sigAlgWire[key], SigMode: "good", Chain: "ok", Gen: "fixed"}
 }
 
 var badKeySpecs = []string{"", "RSA-1024", "rsa-2048", "EC-512", "EC-256 ", "ED25519", "RSA2048", "EC-521\n"}
@@ -408,7 +504,7 @@ var chains = []string{"selfSigned", "empty", "garbage", "otherKey", "otherSpec"}
 func cryptoMutation(r *rand.Rand, in *Input) string {
 	switch k := r.Intn(13); k {
 	case 0:
-		in.EchoOk = false
+		in.Echo = pick(r, "otherFormat", "empty", "junk")
 		return "echo"
 	case 1:
 		if in.EnvFmt == "jws" {
@@ -573,6 +669,62 @@ func Run(c *common.Ctx) error {
 			}
 		}
 	}
+	// 1a. consistent answers in ANOTHER registered format (truthful label), and the inconsistent ones
+	for _, api := range apis {
+		for _, f := range formats {
+			other := "cose"
+			if f == "cose" {
+				other = "jws"
+			}
+			for _, k := range keyNames {
+				for _, v := range [][2]string{{"otherFormat", other}, {"requested", other}, {"otherFormat", f}, {"empty", f}, {"junk", f}, {"empty", other}} {
+					in := base(r, api, "envelope", f, k)
+					in.Echo, in.EnvFmt = v[0], v[1]
+					in.Honest = k != "ec256"
+					c.Count("gen=echo:" + v[0] + "/fmt:" + map[bool]string{true: "requested", false: "other"}[v[1] == f])
+					runCase(c, w, in)
+				}
+			}
+		}
+	}
+	// 1d. payload types that are not the Notary payload type (the scripted plugin picks: other types, and near
+	// misses - parameters, blanks, another letter case)
+	for _, api := range apis {
+		for _, f := range formats {
+			for rep := 0; rep < 8; rep++ {
+				in := base(r, api, "envelope", f, keyNames[rep%6])
+				in.CtypeOk = false
+				c.Count("gen=ctype")
+				runCase(c, w, in)
+			}
+		}
+	}
+	// 1c. SignBlob through a one-shot, reader-backed descriptor generator (what notation.SignBlob hands
+	// out), honest and scripted plugins, every key spec (the digest algorithm goes with the key spec);
+	// a generator that fails
+	for _, f := range formats {
+		for _, k := range keyNames {
+			for _, cp := range []string{"envelope", "raw", "both"} {
+				for rep := 0; rep < 2; rep++ {
+					in := base(r, "signBlob", cp, f, k)
+					useStream(r, in)
+					in.Honest = rep == 0
+					c.Count("gen=blob:stream/" + cp)
+					runCase(c, w, in)
+				}
+				in := base(r, "signBlob", cp, f, k)
+				in.Gen = "failing"
+				c.Count("gen=blob:failing")
+				runCase(c, w, in)
+			}
+			// the stream generator with a deviating answer: the check is made against the blob's descriptor
+			in := base(r, "signBlob", "envelope", f, k)
+			useStream(r, in)
+			mutatePayload(r, in, 0)
+			c.Count("gen=blob:stream/otherValue")
+			runCase(c, w, in)
+		}
+	}
 	// 1b. describe-key names the RIGHT key spec in another spelling (raw-signature plugins; SignBlob
 	// reads the key spec on the envelope path too)
 	kn := 0
@@ -703,6 +855,39 @@ func Run(c *common.Ctx) error {
 			runCase(c, w, in)
 		}
 	}
+	// 2f. optional descriptor members spelled as JSON null (how Jackson / System.Text.Json / serde write an
+	// unset optional field), alone and together, in every position: null means absent
+	for _, f := range formats {
+		opt := []string{"platform", "urls", "data", "artifactType", "annotations"}
+		var sets [][]string
+		for _, o := range opt {
+			sets = append(sets, []string{o})
+		}
+		sets = append(sets, []string{"platform", "urls"}, []string{"urls", "data", "platform"}, opt)
+		for si, set := range sets {
+			for pos := 0; pos < 3; pos++ {
+				in := base(r, apis[(si+pos)%2], "envelope", f, keyNames[(si+pos)%6])
+				in.Req.Annotations = [][2]string{}
+				in.Payload = goodPayload(in.Req)
+				t := target(&in.Payload)
+				for _, name := range set {
+					at := map[int]int{0: 0, 1: len(t.O) / 2, 2: len(t.O)}[pos]
+					t.O = insertAt(t.O, at, M(name, Null()))
+				}
+				c.Count("gen=nullMember")
+				runCase(c, w, in)
+			}
+		}
+		// null for a member the request has a value for
+		for _, name := range []string{"mediaType", "digest", "size"} {
+			in := base(r, "sign", "envelope", f, "ec256")
+			in.Payload = goodPayload(in.Req)
+			t := target(&in.Payload)
+			t.O[memberIndex(t, name)].Val = Null()
+			c.Count("gen=nullMember:required")
+			runCase(c, w, in)
+		}
+	}
 	// 2c. an original annotation with an EMPTY value is dropped / kept / nulled (a missing key and an
 	// empty value must not be confused)
 	for _, f := range formats {
@@ -800,6 +985,9 @@ func Run(c *common.Ctx) error {
 		}
 		cp := pick(r, "envelope", "envelope", "envelope", "raw", "raw", "both", "neither")
 		in := base(r, apis[r.Intn(2)], cp, formats[r.Intn(2)], k)
+		if r.Intn(3) == 0 {
+			useStream(r, in) // before any deviation is applied
+		}
 		var tags []string
 		switch r.Intn(10) {
 		case 0, 1, 2, 3, 4: // payload deviations only
